@@ -1066,13 +1066,17 @@ func c09R2Kill(c *Ctx, R2 string, f *ssa.Function, mem *types.Named, K ssa.Instr
 	// the same operations performed by a helper of the package on tags[<digest argument>]
 	for _, call := range Calls(f, func(string) bool { return true }) {
 		g := StaticCallee(call)
-		if _, isCall := call.(*ssa.Call); !isCall || g == nil || g == f || fnPkgPath(g) != fnPkgPath(f) || len(g.Blocks) == 0 {
+		if _, isCall := call.(*ssa.Call); !isCall || g == nil || g == f || !inModule(g) || len(g.Blocks) == 0 {
 			continue
 		}
 		args := call.Common().Args
 		for _, op := range []string{"del", "add"} {
-			di, ki, ok := c09HelperSetOp(g, mem, op)
+			mi, di, ki, ok := c09HelperSetOp(g, mem, op)
 			if !ok || di >= len(args) || ki >= len(args) || !c09SameKey(args[ki], key) {
+				continue
+			}
+			// a generic helper receives the map of sets as an argument: it must be m.tags
+			if mi >= 0 && (mi >= len(args) || !c09IsLoadOfField(args[mi], mem, "tags")) {
 				continue
 			}
 			if op == "del" && len(oldVals) > 0 && (old.fieldOf(args[di], "Digest") || old.vals[args[di]]) {
@@ -1139,7 +1143,21 @@ func c09R2Kill(c *Ctx, R2 string, f *ssa.Function, mem *types.Named, K ssa.Instr
 // c09HelperSetOp: on every path, g removes (op "del") / inserts (op "add") its
 // parameter #ki from / into tags[d] where d is its parameter #di (a digest, or a
 // descriptor whose Digest is used).  For "del" a missing or nil set is excused.
-func c09HelperSetOp(g *ssa.Function, mem *types.Named, op string) (di, ki int, ok bool) {
+func c09HelperSetOp(g *ssa.Function, mem *types.Named, op string) (mi, di, ki int, ok bool) {
+	mi = -1
+	// the map of sets: m.tags itself, or a parameter (generic helper set.AddTo(sets, key, item))
+	isTags := func(x ssa.Value) bool {
+		if c09IsLoadOfField(x, mem, "tags") {
+			return true
+		}
+		if pf, i := c09ParamOf(x); pf == g {
+			if mt, isMap := g.Params[i].Type().Underlying().(*types.Map); isMap && c09IsSetType(mt.Elem()) {
+				mi = i
+				return true
+			}
+		}
+		return false
+	}
 	digestParam := func(x ssa.Value) int {
 		if fn, i := c09ParamOf(x); fn == g {
 			return i
@@ -1164,7 +1182,7 @@ func c09HelperSetOp(g *ssa.Function, mem *types.Named, op string) (di, ki int, o
 	AllInstrs(g, func(in ssa.Instruction) {
 		switch u := in.(type) {
 		case *ssa.Lookup:
-			if !c09IsLoadOfField(u.X, mem, "tags") {
+			if !isTags(u.X) {
 				return
 			}
 			i := digestParam(u.Index)
@@ -1186,7 +1204,7 @@ func c09HelperSetOp(g *ssa.Function, mem *types.Named, op string) (di, ki int, o
 				addTo(i, u)
 			}
 		case *ssa.MapUpdate:
-			if op == "add" && c09IsLoadOfField(u.Map, mem, "tags") {
+			if op == "add" && isTags(u.Map) {
 				if i := digestParam(u.Key); i >= 0 {
 					for _, r := range Roots(u.Value) {
 						addTo(i, r)
@@ -1219,11 +1237,11 @@ func c09HelperSetOp(g *ssa.Function, mem *types.Named, op string) (di, ki int, o
 				}
 			}
 			if all {
-				return i, k, true
+				return mi, i, k, true
 			}
 		}
 	}
-	return -1, -1, false
+	return -1, -1, -1, false
 }
 
 // c09DeletesIndexOfParam: every path through g deletes index[p] or finds it absent.
